@@ -70,7 +70,8 @@ def struct_case(draw):
             ops.append({'op': kind, 'member': mname, 'value': draw(member_values(members[mname]))})
         else:
             ops.append({'op': kind, 'member': mname})
-    return {'kind': 'struct', 'members': members, 'layout': layout, 'prefix': prefix, 'ops': ops}
+    return {'kind': 'struct', 'members': members, 'layout': layout, 'prefix': prefix, 'ops': ops,
+            'guard': draw(st.sampled_from([None, None] + names))}
 
 
 def check_struct(ctx, case):
@@ -105,8 +106,19 @@ def check_struct(ctx, case):
                 hw[m] = v[1] if isinstance(v, tuple) else v
                 return hw[m]
             attrs[f'read_{pnames[m]}'], attrs[f'write_{pnames[m]}'] = rf, wf
+    GUARD = {'double': 100.0, 'int': 5, 'string': 'xyz', 'bool': True, 'enum': 2}
+    guard = case.get('guard') if layout.startswith('memberwise') and case.get('guard') in members else None
     try:
         cls = type('S', (Module,), attrs)
+        if guard:
+            # a subclass refuses one value of one member by a check hook: no write, of the member or of the struct, gets it through
+            from frappy.errors import RangeError as _RangeError
+
+            def check_member(self, value, _g=GUARD[members[guard]]):
+                v = rm.canon(value)
+                if (v[1] if isinstance(v, tuple) else v) == _g:
+                    raise _RangeError('this value is not allowed here')
+            cls = type('S2', (cls,), {f'check_{pnames[guard]}': check_member})
     except Exception as e:   # noqa
         ctx.finding(f'struct:class-creation:{type(e).__name__}', case, repr(e))
         return
@@ -121,13 +133,29 @@ def check_struct(ctx, case):
     mobj.read_st()
     for m in members:
         getattr(mobj, f'read_{pnames[m]}')()
-    touched_struct = touched_member = False
+    touched_struct = touched_member = tainted = False
     for n, op in enumerate(case['ops']):
         ctx.ev()
         sub = dict(case, ops=case['ops'][:n + 1])
         k = op['op']
+
+        def plain(x):
+            x = rm.canon(x)
+            return x[1] if isinstance(x, tuple) else x
+        forbidden = False
+        gbefore = plain(getattr(mobj, pnames[guard])) if guard else None
+        if guard and k in ('change-struct', 'drv-write-struct'):
+            forbidden = plain(op['value'].get(guard)) == GUARD[members[guard]]
+        elif guard and k in ('change-member', 'drv-write-member') and op.get('member') == guard:
+            forbidden = plain(op['value']) == GUARD[members[guard]]
         try:
-            if k == 'change-struct':
+            if forbidden and k.startswith('drv-write'):
+                try:
+                    (mobj.write_st if k == 'drv-write-struct' else getattr(mobj, f'write_{pnames[guard]}'))(op['value'])
+                except Exception:   # noqa - refused, as it has to be
+                    pass
+                touched_struct = True
+            elif k == 'change-struct':
                 kit.request(conn, ('change', 's:_st', op['value']))
                 touched_struct = True
             elif k == 'change-member':
@@ -165,6 +193,17 @@ def check_struct(ctx, case):
         except Exception as e:   # noqa - driver side calls with valid values must not fail
             ctx.finding(f'struct:op-raises:{k}:{layout}:{type(e).__name__}', sub, repr(e)[:200])
             return
+        if forbidden and plain(getattr(mobj, pnames[guard])) == GUARD[members[guard]] and gbefore != GUARD[members[guard]]:
+            ctx.finding(f'struct:member-check-bypassed:{layout}:{k}', sub, f'{pnames[guard]} = {getattr(mobj, pnames[guard])!r} although its check hook refuses this value')
+            return
+        if forbidden:
+            ctx.ok('member-check-enforced')
+            if k in ('change-struct', 'drv-write-struct'):
+                tainted = True      # a refused write of a struct may have written the members before the refused one (known family,
+                #                     not asserted here): from now on only the check hook is looked at
+            continue
+        if tainted:
+            continue
         stv = rm.canon(mobj.st)
         bad = [m for m in members if stv.get(m) != rm.canon(getattr(mobj, pnames[m]))]
         if bad:
